@@ -416,7 +416,7 @@ Definition flow_sequence_entry_mapping_key (p : parser) :=
   do (t, p) <- peek p;
   match t with
   | (sp, TValue) | (sp, TFlowEntry) | (sp, TFlowSequenceEnd) =>
-      Ok ((empty_scalar, sp), set_state (skip p) SFlowSequenceEntryMappingValue)
+      Ok ((empty_scalar, sp), set_state p SFlowSequenceEntryMappingValue)
   | _ => parse_node (push_state p SFlowSequenceEntryMappingValue) false false
   end.
 
